@@ -8,7 +8,7 @@ SEEDS = {
  # id: (property, patch file, demo file, needs-to-manifest, detected by, note)
  "C01-1": ("C01", "patch1.diff", "demo1.rs", "emulated backend; a non-directory directly in the root followed by '..' ('file/..', link bodies 'b/..'): the '..'-at-root shortcut also fires for depth-1 parents and skips the openat that returns ENOTDIR", ["C01", "C04"], ""),
  "C01-2": ("C01", "patch2.diff", "demo2.rs", "emulated backend; a symlink whose body ends in '/' and names a non-directory ('a -> b/' with b a file): empty components of link bodies are filtered, losing the must-be-directory demand", ["C01", "C04"], "needed the link body 'b/' added to the generator and a reference-model fix (trailing slash of nested bodies)"),
- "C02-1": ("C02", "patch1.diff", "demo1.rs", "emulated backend; resolve_nofollow/readlink/open(O_PATH|O_NOFOLLOW) on '<dir>/../<link>' while <dir> is renamed out of the root between openat(dir) and openat('..'): the post-'..' check only runs for partial lookups and the trailing-nofollow early return skips the final check", ["C02"], "needed lookup paths 'a/b/c/../lnk' and attacker-side decoys named like the walked components"),
+ "C02-1": ("C02", "patch1-ported.diff", "demo1.rs", "emulated backend; resolve_nofollow/readlink/open(O_PATH|O_NOFOLLOW) on '<dir>/../<link>' while <dir> is renamed out of the root between openat(dir) and openat('..'): the post-'..' check only runs for partial lookups and the trailing-nofollow early return skips the final check", ["C02"], "needed lookup paths 'a/b/c/../lnk' and attacker-side decoys named like the walked components"),
  "C02-2": ("C02", "patch2.diff", "demo2.rs", "emulated backend with ResolverFlags::NO_SYMLINKS; any path with '..' while a directory on it is moved out: both containment checks are gated on !NO_SYMLINKS", ["C02"], "needed NO_SYMLINKS lookup scenarios"),
  "C03-1": ("C03", "patch1.diff", "demo1.rs", "remove_all on a non-empty directory that an attacker swaps for a symlink between the failed unlink/rmdir and the scan open (openat_follow instead of openat: O_NOFOLLOW lost)", ["C03", "C13", "C05"], ""),
  "C03-2": ("C03", "patch2.diff", "demo2.rs", "openat2 backend; mkdir_all('x/../../escaped') while an attacker creates 'x' between two openat2 probes of the partial lookup: the weakened '..' check lets a tail starting with '..' through and the directory is created outside the root", ["C03"], "needed an attacker 'mkdir' mutation and mkdir_all scenarios with '..' in the tail"),
@@ -26,8 +26,8 @@ SEEDS = {
  "C08-1": ("C08", "patch1.diff", "demo1.rs", "privileged caller on a subset=pid / hidepid host /proc: new_unmasked() prefers a clone of the (masked) host /proc over a fresh procfs, so existing entries such as sys/kernel/ostype are reported ENOENT", ["C08"], "needed the 'existing but masked must not be ENOENT for privileged callers' oracle"),
  "C09-1": ("C09", "patch1.diff", "demo1.rs", "openat2 backend; reopen with flag combinations openat(2) silently accepts but openat2 refuses (O_PATH|O_RDWR, O_PATH|O_APPEND, unknown bits): final open switched to openat2", ["C09"], "needed sloppy flag combinations in the flag sets"),
  "C09-2": ("C09", "patch2.diff", "demo2.rs", "reopen from a thread with an unshared descriptor table (unshare(CLONE_FILES)) while the thread-group leader holds another file at the same number: /proc/self instead of /proc/thread-self", ["C09"], "needed the unshared-descriptor-table probe"),
- "C10-1": ("C10", "patch1.diff", "demo1.rs", "emulated backend; exactly the readlinkat of a real trailing symlink fails (EIO/ENOMEM/EACCES): resolve returns the un-followed symlink as success", ["C10"], ""),
- "C10-2": ("C10", "patch2.diff", "demo2.rs", "openat2 wrapper retries EAGAIN forever: 16 consecutive EAGAINs end in success instead of a safety violation; an endless storm never returns", ["C10"], ""),
+ "C10-1": ("C10", "patch1-ported.diff", "demo1.rs", "emulated backend; exactly the readlinkat of a real trailing symlink fails (EIO/ENOMEM/EACCES): resolve returns the un-followed symlink as success", ["C10"], ""),
+ "C10-2": ("C10", "patch2-ported.diff", "demo2.rs", "openat2 wrapper retries EAGAIN forever: 16 consecutive EAGAINs end in success instead of a safety violation; an endless storm never returns", ["C10"], ""),
  "C11-1": ("C11", "patch1.diff", "demo1.rs", "openat2 backend and a caller without descriptor 0 (closed stdin): openat2 returning 0 is treated as failure, the descriptor leaks", ["C11"], "needed callers without a descriptor 0"),
  "C11-2": ("C11", "patch2.diff", "demo2.rs", "emulated backend; '..'-at-root lookups returned a dup(2)'ed root descriptor without FD_CLOEXEC (on the repaired tree that descriptor is no longer returned, the plain dup remains)", ["C05"], "C11 itself no longer sees it after fix ee5b102 (the dup is internal); C05 flags the dup(2) call"),
  "C12-1": ("C12", "patch1.diff", "demo1.rs", "two concurrent mkdir_all callers sharing a prefix, one of which fails late (a 256-byte component): its new roll-back removes directories the other caller is standing in; needs two preemptions", ["C12"], "needed doomed-caller groups with preemption bound 2"),
